@@ -104,12 +104,19 @@ def mapping(rng, depth, anchors, bad, enclosing=()):
 
 
 def document(rng, bad=False, selfref=False):
-    """(node tree of the document, YAML text): top-level block mapping; anchors first, then uses"""
-    anchors = []
+    """(node tree of the document, YAML text): top-level block mapping; anchors first, then uses. An anchor NAME may be
+    bound more than once (YAML: an alias refers to the most recent binding before it), half of the time from a pool of two
+    names so that rebinding is frequent"""
+    latest = {}          # anchor name -> node of its most recent binding
     lines = []
     entries = []
-    for i in range(1 + rng.below(3)):
-        name = "a%d" % i
+    small_pool = rng.chance(1, 2)
+    for i in range(1 + rng.below(3 if not small_pool else 4)):
+        name = rng.pick(["p", "q"]) if small_pool else "a%d" % i
+        key = "d%d" % i
+        # inside the node that (re)binds `name`, *name already means that node itself (the anchor is registered when the
+        # node starts): earlier bindings of the same name are no longer reachable from inside it
+        anchors = sorted((nm, t) for nm, t in latest.items() if nm != name)
         enc = (name,) if selfref else ()
         if rng.chance(4, 5):
             n, t = mapping(rng, 1 + (1 if selfref else 0), anchors, bad, enc)
@@ -118,12 +125,17 @@ def document(rng, bad=False, selfref=False):
         if n[0] in ("alias", "aliasup"):
             # an anchor on an alias is not YAML
             n, t = scalar(rng)
-        lines.append("%s: &%s %s" % (name, name, t))
-        entries.append([["s", "!!str", name], n])
-        anchors.append((name, n))
+        lines.append("%s: &%s %s" % (key, name, t))
+        entries.append([["s", "!!str", key], n])
+        latest[name] = n
+        # a use right after this binding, so that bindings and uses interleave
+        if rng.chance(1, 2):
+            un, ut = node(rng, 1, sorted(latest.items()), bad)
+            lines.append("m%d: %s" % (i, ut))
+            entries.append([["s", "!!str", "m%d" % i], un])
     for i in range(1 + rng.below(3)):
         name = "u%d" % i
-        n, t = node(rng, 2, anchors, bad)
+        n, t = node(rng, 2, sorted(latest.items()), bad)
         lines.append("%s: %s" % (name, t))
         entries.append([["s", "!!str", name], n])
     return ["map", entries], "\n".join(lines) + "\n"
